@@ -20,7 +20,7 @@ LEVEL = "exploration"
 RULE = ("exhaustive: 25 EEMS 2.0 names x {with, without NewFieldName} x {with, without OutFileName} x {bare, 'Result =' form}; random: "
         "EEMS models of 2-12 commands written in 2.0 syntax (any graph shape, optionally mixed with MPilot-style commands) in all "
         "W-SYNTAX layouts; distinct by (set of 2.0 names used, naming styles, mixed?, layout style)")
-REQUIRED_COUNTERS = ["repeated_loads_compared", "user_library_files", "cli_runs_of_eems2_files", "names_checked", "translations_compared", "result_sets_compared", "restricted_library_histories"]
+REQUIRED_COUNTERS = ["repeated_loads_compared", "translated_command_lines_compared", "user_library_files", "cli_runs_of_eems2_files", "names_checked", "translations_compared", "result_sets_compared", "restricted_library_histories"]
 EXHAUSTIVE_NOTE = "all 25 mapped names x 8 naming/argument forms in both tiers"
 ASSUMPTIONS = ["the harness's name table restates the mapping by meaning (MEANTOMID is the fuzzy mean-to-mid conversion, ORNEG the minimum)",
                "2.0 commands with neither a result name nor NewFieldName/InFieldName, and OutFileName on MPilot-style commands inside a 2.0 file, are don't-care"]
@@ -136,19 +136,28 @@ def render_pair(model, rng, mixed, style):
             out.append({"result": c["result"], "command": c["cmd"], "args": args, "trail": False})
         return {"commands": out}
 
-    return _render(ast(v2cmds, True), rng, style), _render(ast(v3cmds, False), None, "canon"), v2cmds
+    a2 = ast(v2cmds, True)
+    t2 = _render(a2, rng, style)
+    for c_, a_ in zip(v2cmds, a2["commands"]):
+        c_["_line"] = a_.get("_line")       # the line of the command-name token in the rendered 2.0 text
+    return t2, _render(ast(v3cmds, False), None, "canon"), v2cmds
 
 
 def _render(a, rng, style):
     return syntax.render(a, rng, style)
 
 
+_last = {"lines": None}
+
+
 def _load_run(text, d, libs=None):
     from mpilot.program import Program
+    _last["lines"] = None
     try:
         p = Program.from_source(text, working_dir=d) if libs is None else Program.from_source(text, libraries=libs, working_dir=d)
     except Exception as e:
         return ("load-error", type(e).__name__, e), None, None
+    _last["lines"] = [getattr(c, "lineno", None) for c in p.commands.values()]
     try:
         st = c15.structure(p)
     except Exception as e:
@@ -228,8 +237,17 @@ def run_case(ctx, case):
         libs = ("mpilot.libraries.eems.basic", "mpilot.libraries.eems.csv") if not fuzzy else ("mpilot.libraries.eems.fuzzy", "mpilot.libraries.eems.csv.io", "mpilot.libraries.eems.basic")
         ctx.count("other_library_lists")
     o2, s2, r2 = _load_run(t2, d, libs)
+    lines2 = _last["lines"]
     o3, s3, r3 = _load_run(t3, d, libs)
     detail = {"v2_text": t2[:1500], "translated_text": t3[:1500]}
+    if lines2 is not None and case["style"] != "canon":
+        # every translated command still knows the line its command name stands on (what errors and the tool's marker use)
+        ctx.count("translated_command_lines_compared")
+        wantl = [c.get("_line") for c in v2cmds]
+        if len(lines2) == len(wantl) and all(w is not None for w in wantl) and lines2 != wantl:
+            k_ = [i for i, (a_, b_) in enumerate(zip(lines2, wantl)) if a_ != b_][0]
+            ctx.fail("translated-command-carries-another-line", dict(detail, command=v2cmds[k_]["cmd"], got=lines2[k_], want=wantl[k_]))
+            return
     if o2[0] != o3[0] or (o2[0] == "load-error" and o2[1] != o3[1]):
         bad = [c["cmd"] for c in v2cmds if c["cmd"] in V2]
         ctx.fail("outcome-differs:%s-vs-%s" % ("/".join(o2[:2]), "/".join(o3[:2])), dict(detail, error=repr(o2[2])[:200] if len(o2) > 2 else None, names=bad[:6]))
